@@ -50,6 +50,10 @@ Asc(S) == LET s == SetToSortSeq(S, LAMBDA a, b : a < b) IN [i \in 1..Len(s) |-> 
 Perms(S) == LET n == Cardinality(S) IN
             {f \in [1..n -> S] : \A i, j \in 1..n : i # j => f[i] # f[j]}
 
+(* about n elements of S, a different residue class for every SEED *)
+Sample(S, n) == LET s == SetToSeq(S)  m == Len(s)  stride == IF m \div n < 1 THEN 1 ELSE m \div n IN
+                {s[i] : i \in {j \in 1..m : j % stride = SEED % stride}}
+
 (* property sections explored for context ctx *)
 PropSeqs(ctx) ==
   LET A == Allowed(ctx)  n == Cardinality(A)
@@ -147,7 +151,7 @@ Auths ==
 
 (* one string / binary field at each boundary length *)
 Lens == {0, 1, 127, 128, 16383, 16384, 65534, 65535}
-LongOnes(t) ==
+LongOnesAll(t) ==
   IF t = 1 THEN { [t |-> 1, fl |-> 0, v |-> [ProtocolName |-> MQTTName, ProtocolVersion |-> 5, ConnectFlags |-> 128 + 64 + 4,
                     KeepAlive |-> 1, Props |-> IF j = 1 THEN <<PV(21, Txt(n))>> ELSE IF j = 2 THEN <<PV(21, Txt(1)), PV(22, Bin(n))>> ELSE <<>>,
                     ClientID |-> IF j = 3 THEN Txt(n) ELSE Txt(1),
@@ -166,6 +170,13 @@ LongOnes(t) ==
   ELSE IF t = 14 THEN { [t |-> 14, fl |-> 0, v |-> [ReasonCode |-> 0, Props |-> <<PV(id, Txt(n))>>]] : n \in Lens, id \in {31, 28} }
   ELSE IF t = 15 THEN { [t |-> 15, fl |-> 0, v |-> [ReasonCode |-> 24, Props |-> <<PV(21, Txt(IF j = 1 THEN n ELSE 1))>> \o (IF j = 2 THEN <<PV(22, Bin(n))>> ELSE <<>>)]] : n \in Lens, j \in 1..2 }
   ELSE {}
+
+(* quick tier: every short boundary length, and a seed-dependent dozen of the long ones per type *)
+LongOnes(t) ==
+  IF Thorough THEN LongOnesAll(t)
+  ELSE LET all == LongOnesAll(t)
+           big == {p \in all : Len(Encode(p)) > 1000}
+       IN (all \ big) \cup Sample(big, 12)
 
 (* frames whose remaining length sits on each side of the 1/2/3/4-byte thresholds *)
 Thresholds == IF Thorough THEN {127, 128, 16383, 16384, 2097151, 2097152} ELSE {127, 128, 16383, 16384}
@@ -217,9 +228,6 @@ NProps(p) == IF "Props" \in DOMAIN p.v THEN Len(p.v["Props"]) ELSE 0
 (* base packets for cuts and prefixes: at most one property, or the full ascending section; *)
 (* for the exhaustive identifier / boolean sweeps: two packets per type                     *)
 WillNProps(p) == IF "WillProps" \in DOMAIN p.v THEN Len(p.v["WillProps"]) ELSE 0
-(* about n elements of S, a different residue class for every SEED *)
-Sample(S, n) == LET s == SetToSeq(S)  m == Len(s)  stride == IF m \div n < 1 THEN 1 ELSE m \div n IN
-                {s[i] : i \in {j \in 1..m : j % stride = SEED % stride}}
 BaseForMutants(t) ==
   LET small == {p \in WirePkts(t) : NProps(p) <= 1 /\ WillNProps(p) <= 1}
       full == {p \in WirePkts(t) : NProps(p) >= Cardinality(Allowed(t)) - 1 /\ NProps(p) > 1}
